@@ -566,11 +566,18 @@ impl Compiler {
             result: result_reg,
         });
 
+        // Each iteration has its own scope: a closure created by the body keeps the binding
+        // of the iteration it was created in
+        self.emit_push_scope();
+
         // Bind to left side
         self.compile_for_in_of_left(&for_in.left, value_reg)?;
 
         // Compile body
         self.compile_statement_impl(&for_in.body)?;
+
+        // Leave the iteration's scope
+        self.emit_pop_scope();
 
         // Jump back to start
         self.builder.emit_jump_to(loop_start);
@@ -664,6 +671,10 @@ impl Compiler {
             });
         }
 
+        // Each iteration has its own scope: a closure created by the body keeps the binding
+        // of the iteration it was created in
+        self.emit_push_scope();
+
         // Bind to left side
         self.compile_for_in_of_left(&for_of.left, value_reg)?;
 
@@ -679,6 +690,9 @@ impl Compiler {
 
         // Pop iterator try handler (normal completion, no exception)
         self.builder.emit(Op::PopIterTry);
+
+        // Leave the iteration's scope
+        self.emit_pop_scope();
 
         // Jump back to start
         self.builder.emit_jump_to(loop_start);
